@@ -109,6 +109,8 @@ package config
 //@   ensures [selectors] p.Spec.AllocateTo != nil && result1 == nil && !(len(p.Spec.AllocateTo.Namespaces) == 0 && len(p.Spec.AllocateTo.NamespaceSelectors) == 0 && len(p.Spec.AllocateTo.ServiceSelectors) == 0) ==>
 //@       len(result0.ServiceSelectors) == len(p.Spec.AllocateTo.ServiceSelectors) && (forall i int :: 0 <= i && i < len(p.Spec.AllocateTo.ServiceSelectors) ==> result0.ServiceSelectors[i] == metav1.AsSel(p.Spec.AllocateTo.ServiceSelectors[i]))
 //@   modifies []string, fresh *ServiceAllocation, fresh map[string]sets.Empty, fresh []labels.Selector, fresh []interface{}
+//@   assert after Insert#1: [ins] forall x string :: (x in poolNamespaces) == (pre(x in poolNamespaces) || x == poolNs)
+//@   assert after Insert#1: [cur] forall k int :: k == idx(1) ==> 0 <= k && k < len(p.Spec.AllocateTo.Namespaces) && poolNs == old(p.Spec.AllocateTo.Namespaces[k])
 //@   loop 1 binds poolNs
 //@   loop 1 invariant poolNamespaces != nil && fresh(poolNamespaces)
 //@   loop 1 invariant (len(poolNamespaces) == 0) == (iter == 0)
